@@ -113,6 +113,7 @@ package crdt
 // but this peer); the written form is the inverse: "*" only for trust-all, else the list verbatim
 //@ func (cfg *Config) applyJSONConfig
 //@   property C07 C15
+//@   inline SetIfNotDefault
 //@   requires cfg != nil && jcfg != nil
 //@   ensures [star-means-trust-all] err == nil ==> (cfg.TrustAll <==> exists i int :: 0 <= i && i < len(jcfg.TrustedPeers) && jcfg.TrustedPeers[i] == "*")
 //@   ensures [list-taken-whole] err == nil && !cfg.TrustAll ==> len(cfg.TrustedPeers) == len(jcfg.TrustedPeers)
